@@ -153,7 +153,7 @@ pub fn execute_via(subject: &dyn Subject, cfg: SourceCfg<'_>, chunk_size: Option
             None => DeferredReader::from_read(source),
             Some(cap) => {
                 use std::io::BufRead;
-                let mut br = std::io::BufReader::with_capacity(cap.max(1), source);
+                let mut br = std::io::BufReader::with_capacity(cap, source);
                 let _ = br.fill_buf();
                 DeferredReader::from_buf_reader(br)
             }
